@@ -53,6 +53,18 @@ def simplification_items(cols, roles, depth, hist):
     return items
 
 
+def source_menu(cols, roles, depth, hist):
+    """source states for the thorough tier's second level: the step kinds the three simplifications are about"""
+    items = menus.extend_items(cols, roles)
+    win = menus.window_items(cols, roles)
+    items += [w for w in win if menus._fn_of(w) in ("sum", "_size", "cumsum", "_row_number")][:8]
+    ci = menus.column_items(cols, roles)
+    items += [c for c in ci if c["op"] in ("drop_columns", "rename_columns")] + [c for c in ci if c["op"] == "select_columns"][:5]
+    items += [o for o in menus.order_items(cols, roles) if o["limit"] in (None, 1)][:6]
+    items += simplification_items(cols, roles, depth, hist)
+    return items
+
+
 def c06_menu(cols, roles, depth, hist):
     return menus.core_menu(cols, roles, depth, hist) + simplification_items(cols, roles, depth, hist)
 
@@ -193,11 +205,19 @@ def run(tier):
     # quick tier: source states from the thinner first-step menu plus the simplification entries; every
     # source's outgoing transitions are taken from the full menu
     ex = explorer.Explorer((lambda c, r, d, h: menus.core_menu_q(c, r, d, h) + simplification_items(c, r, d, h)) if tier == "quick" else menus.core_menu)
-    states = ex.run(src_depth)
-    hists = [s.hist for s in states]
-    if tier != "quick":
-        # depth-2 sources are limited to the simplification-relevant kinds (extend / select / drop / order)
-        hists = [h for h in hists if len(h["steps"]) < 2 or all(s["op"] in ("extend", "select_columns", "drop_columns", "order_rows", "rename_columns") for s in h["steps"])]
+    if tier == "quick":
+        states = ex.run(src_depth)
+        hists = [s.hist for s in states]
+    else:
+        # every depth <= 1 state of the core menu, plus the depth-2 states of the simplification source menu
+        # (extends incl. windowed ones, select / drop / rename, limit-less and limited order_rows)
+        states = ex.run(1)
+        hists = [s.hist for s in states]
+        ex2 = explorer.Explorer(source_menu)
+        seen = {H.hist_key(h) for h in hists}
+        for s2 in ex2.run(2):
+            if H.hist_key(s2.hist) not in seen:
+                hists.append(s2.hist)
     hists = core.rotate(hists, run.seed)
     kd = 2
     for p in core.pmap(work, [([h], list(run.open_findings), kd, "c06") for h in hists]):
@@ -211,7 +231,7 @@ def run(tier):
     return run.finish(
         exhaustive=True,
         rule=f"every outgoing transition (core menu + simplification entries: common-target extends, reads of replaced columns, swaps, re-selection/drop/order of columns an earlier select/drop removed, checked joins) of every state at depth <= {src_depth}"
-        + (" (depth-2 sources restricted to extend/select/drop/rename/order chains)" if tier != "quick" else "")
+        + (" (depth-2 sources: all two-step chains over the simplification source menu of extends, windows, select/drop/rename and order_rows)" if tier != "quick" else "")
         + f", each on all multisets of <= {kd} rows over the 3-row alphabets (transitions involving an ordered window also on all multisets of <= {kd} rows of a null-free 3-row alphabet whose numeric columns sort differently)",
     )
 
